@@ -225,8 +225,16 @@ class Search:
                 kw["ranks"] = list(r)
             teams = [[L[i] for i in t] for t in mt]
             ids = [[(p.id, p.name) for p in T] for T in teams]
+            arg0 = ([list(T) for T in teams], {k: (list(v) if isinstance(v, list) else v) for k, v in kw.items()})
             out = m.rate(teams, **kw)
             if checks is not None:
+                # I8: a valid call leaves its argument containers as they were (a caller that re-uses its ranks list or its
+                # team lists would otherwise get answers that depend on the earlier call)
+                same_teams = len(teams) == len(arg0[0]) and all(len(a) == len(b_) and all(x is y for x, y in zip(a, b_)) for a, b_ in zip(teams, arg0[0]))
+                same_kw = all((kw[k] == v and [type(x) for x in kw[k]] == [type(x) for x in v]) if isinstance(v, list) else kw[k] is v for k, v in arg0[1].items())
+                if not (same_teams and same_kw):
+                    checks.append(("I8", f"the call modified its argument containers: teams structure unchanged={same_teams}; "
+                                         f"keyword arguments now {kw} (were {arg0[1]})"))
                 shape_ok = isinstance(out, list) and len(out) == len(teams) and all(
                     isinstance(o, list) and len(o) == len(T) for o, T in zip(out, teams))
                 if not shape_ok:
@@ -398,6 +406,7 @@ class Search:
                 except Exception as e:
                     viol.append(("I6", f"model built with the per-call options raised {type(e).__name__}: {e}"))
         digest = hashlib.blake2b(repr(s1).encode(), digest_size=16).digest()
+        self.last_public = (s1[0], s1[1])  # model + league, WITHOUT the module-globals part (a legal memo cache lives there)
         return digest, obs, viol, s1[2] != g0
 
 
